@@ -524,7 +524,22 @@ pub fn run(op: &str, e: &Value, ctx: &mut Ctx) -> Result<Value, String> {
             let z1 = ed25519_dalek::verif::take_batch_coefficients();
             let r2 = ed25519_dalek::verify_batch(&mrefs, &sigs, &keys).is_ok();
             let z2 = ed25519_dalek::verif::take_batch_coefficients();
-            Ok(json!({"key_ok": true, "ok": r1, "again": r2, "zs": z1.iter().map(|z| jbytes(z)).collect::<Vec<_>>(), "zs_again": z2.iter().map(|z| jbytes(z)).collect::<Vec<_>>()}))
+            let mut o = json!({"key_ok": true, "ok": r1, "again": r2, "zs": z1.iter().map(|z| jbytes(z)).collect::<Vec<_>>(), "zs_again": z2.iter().map(|z| jbytes(z)).collect::<Vec<_>>()});
+            // the adaptive adversary of batch verification: knowing the coefficients z of THIS batch (they are a public function of the
+            // batch), change S_0 and S_1 so that sum z_i S_i stays the same: S_0 += z_1 t, S_1 -= z_0 t.  Both entries become invalid; the
+            // batch is still accepted if and only if the coefficients did not move with S.
+            if e["adaptive"].as_bool().unwrap_or(false) && z1.len() >= 2 && sigs.len() >= 2 && sigs.len() == keys.len() && mrefs.len() == keys.len() {
+                let t = Scalar::from(0x1234_5678_9abc_def1u64);
+                let z = |k: usize| Scalar::from_bytes_mod_order(z1[k]);
+                let s_of = |g: &Signature| Scalar::from_bytes_mod_order(g.to_bytes()[32..].try_into().unwrap());
+                let put = |g: &Signature, s: Scalar| { let mut b = g.to_bytes(); b[32..].copy_from_slice(s.as_bytes()); Signature::from_bytes(&b) };
+                let mut att = sigs.clone();
+                att[0] = put(&sigs[0], s_of(&sigs[0]) + z(1) * t);
+                att[1] = put(&sigs[1], s_of(&sigs[1]) - z(0) * t);
+                o["att_ok"] = json!(ed25519_dalek::verify_batch(&mrefs, &att, &keys).is_ok());
+                o["att_sigs"] = Value::Array(att.iter().map(|g| jbytes(&g.to_bytes())).collect());
+            }
+            Ok(o)
         }
         _ => Err(format!("unknown op {op}")),
     }
